@@ -53,6 +53,12 @@ class AsyncioRunner(BaseRunner):
             result = await payload()
         except (asyncio.CancelledError, KeyboardInterrupt):
             raise
+        except StopIteration as e:
+            # raised by calling ``payload`` itself - inside a coroutine, Python turns it
+            # into a RuntimeError on its own. A Future refuses to store a StopIteration
+            # (TypeError): wrap it the same way so that the failure is not lost.
+            failure = RuntimeError("payload raised StopIteration")
+            failure.__cause__ = e
         except BaseException as e:  # noqa: B036
             failure = e
         else:
